@@ -3,6 +3,11 @@
 import json, os, re, sys, glob
 
 DESC = {
+ "r5-C06": ("C06", "bodies of at most 64 bytes are read with io.ReadAtLeast into a 64-byte scratch array: bytes of the following frames are consumed", "a short frame followed by more bytes in the same Read"),
+ "r5-C07": ("C07", "vbint.ReadFrom reads the remaining-length bytes with a single r.Read into a [1]byte and ignores the count", "a zero-length read before or inside the remaining length, or the byte delivered together with io.EOF"),
+ "r5-C08": ("C08", "io.ErrUnexpectedEOF from the body read is no longer fatal: the truncated body is handed to UnmarshalBinary", "a stream that ends inside the body of a frame whose prefix still parses"),
+ "r5-C15": ("C15", "the streaming decoder's size check compares the value with 268 435 455 instead of counting bytes", "four or more continuation bytes followed by small groups (80 80 80 80 00)"),
+ "r5-C18": ("C18", "stars(n) refactored into mask(v []byte): whitespace-only credentials are shown as unset", "a non-empty credential consisting of white space only"),
  "r4-C02": ("C02", "SubAck.variableHeader returns 2 + 1 + proplen for the width pass (assumes a one byte property length)", "a SUBACK with 128 bytes or more of properties: remaining length one short, last reason code not written"),
  "r4-C09": ("C09", "Publish.UnmarshalBinary reads the payload with buf.err = p.payload.UnmarshalBinary(...): an earlier decode error is overwritten with nil", "a PUBLISH with a truncated / malformed property followed by at least one more byte"),
  "r3-C03a": ("C03", "PubRec.UnmarshalBinary returns early for frames shorter than 4 bytes (misreading of 3.5.2.1): the reason code of a length-3 PUBREC is not read", "a PUBREC of remaining length 3 with a non-zero reason code (50 03 00 09 97)"),
